@@ -175,18 +175,6 @@ class DictProxy(dict):
         self.update(other)
         return self
 
-    def __eq__(self, other: Any) -> bool:
-        if other is None or not isinstance(other, dict):
-            return False
-
-        if isinstance(other, DictProxy):
-            return self._is_compatible_proxy(other) and super().__eq__(other)
-
-        return super().__eq__(other)
-
-    def __ne__(self, other: Any) -> bool:
-        return not self.__eq__(other)
-
 
 class DictField(Field):
     """
